@@ -1,0 +1,59 @@
+//! Read-only snapshot of the MAC state for external verification harnesses.
+//! Compiled only with the `verif-hooks` feature; adds no behaviour.
+
+/// One channel of a dynamic channel plan.
+#[derive(Debug, Clone, Copy, PartialEq, Eq)]
+pub struct VerifChannel {
+    pub frequency: u32,
+    pub dl_frequency: Option<u32>,
+    pub dr_range: u8,
+}
+
+/// Join-channel selection state of a fixed channel plan.
+#[derive(Debug, Clone, Copy, PartialEq, Eq, Default)]
+pub struct VerifJoinBias {
+    pub max_retries: usize,
+    pub num_retries: usize,
+    pub preferred_subband: Option<u8>,
+    pub previous_channel: u8,
+    pub available: [u8; 9],
+    pub available_previous: Option<u8>,
+}
+
+/// Channel plan and mask.
+#[derive(Debug, Clone, Copy, PartialEq, Eq)]
+pub struct VerifPlan {
+    pub fixed: bool,
+    pub channel_mask: [u8; 9],
+    pub channels: [Option<VerifChannel>; 16],
+    pub join_bias: VerifJoinBias,
+}
+
+#[derive(Debug, Clone, Copy, PartialEq, Eq)]
+pub struct VerifSession {
+    pub devaddr: u32,
+    pub fcnt_up: u32,
+    pub fcnt_down: Option<u32>,
+    pub adr_ack_cnt: u32,
+    pub confirmed: bool,
+    pub owed_ack: bool,
+    pub pending: [u8; 15],
+    pub pending_len: u8,
+}
+
+/// 0 = unjoined, 1 = OTAA join in progress, 2 = joined
+pub type VerifJoinState = u8;
+
+#[derive(Debug, Clone, Copy, PartialEq, Eq)]
+pub struct VerifSnapshot {
+    pub data_rate: u8,
+    pub tx_power: Option<u8>,
+    pub rx1_dr_offset: u8,
+    pub rx2_data_rate: Option<u8>,
+    pub rx2_frequency: Option<u32>,
+    pub rx1_delay: u32,
+    pub adr_enabled: bool,
+    pub plan: VerifPlan,
+    pub join_state: VerifJoinState,
+    pub session: Option<VerifSession>,
+}
